@@ -52,6 +52,10 @@ type Opt struct {
 	PerEntry   bool // one ResourceLogs per entry instead of one per stream
 	SevAsLevel bool // label "level" travels as severity_text
 	OneRes     bool // all streams under ONE ResourceLogs, one ScopeLogs each (needs no stream to have resource-level labels)
+	ByName     bool // placement by label name instead of o.Place: res_* resource attribute, scp_* scope attribute, level severity_text, others record attribute
+	Pack       bool // with ByName: consecutive streams with equal resource attributes share a ResourceLogs, with equal scope attributes a ScopeLogs — records of different streams then sit in ONE scope
+	OmitBody   bool // an empty line travels as an unset body / an absent "message" key instead of an empty string
+	Reverse    bool // remote-write: labels of every series in reverse order
 }
 
 // jstr writes s as a JSON string with the minimal escapes (the bytes of s are otherwise copied verbatim, so a
@@ -313,6 +317,11 @@ func RenderRemoteWrite(streams []Stream, o Opt) ([]byte, error) {
 				return nil, inexpr("invalid UTF-8 in a proto3 string")
 			}
 			ts.Labels = append(ts.Labels, &prompb.Label{Name: l.Name, Value: l.Value})
+		}
+		if o.Reverse {
+			for i, j := 0, len(ts.Labels)-1; i < j; i, j = i+1, j-1 {
+				ts.Labels[i], ts.Labels[j] = ts.Labels[j], ts.Labels[i]
+			}
 		}
 		for _, e := range s.Entries {
 			if err := checkEntry(e); err != nil {
@@ -621,6 +630,9 @@ func RenderDatadogLogs(streams []Stream, o Opt) ([]byte, error) {
 					}
 					jstr(&kv, strings.Join(tags, ","))
 				case "message":
+					if o.OmitBody && e.Line == "" {
+						continue
+					}
 					jstr(&kv, e.Line)
 				case "timestamp":
 					kv.WriteString(strconv.FormatInt(e.TsNs/1e6, 10))
@@ -821,19 +833,24 @@ func otlpValue(v string, typed int) *otlpCommon.AnyValue {
 }
 
 // RenderOTLPLogs renders an OTLP LogsData protobuf.  The labels of a stream are the union of resource, scope and
-// record attributes (placement chosen by o.Place); the label "level" may travel as severity_text.
+// record attributes (placement chosen by o.Place, or by label name with o.ByName); the label "level" may travel as
+// severity_text.
 func RenderOTLPLogs(streams []Stream, o Opt) ([]byte, error) {
 	ld := &otlpLogs.LogsData{}
 	var shared *otlpLogs.ResourceLogs
+	var lastRes, lastScope string // ByName+Pack: keys of the resource / scope attributes of the current group
+	var curRes *otlpLogs.ResourceLogs
+	var curScope *otlpLogs.ScopeLogs
 	for _, s := range streams {
 		var lv [3][]*otlpCommon.KeyValue
+		var lvl [3][]Label
 		sev := ""
 		p := o.Place
 		for _, l := range s.Labels {
 			if !utf8.ValidString(l.Name) || !utf8.ValidString(l.Value) {
 				return nil, inexpr("invalid UTF-8 in a proto3 string")
 			}
-			if l.Name == "level" && o.SevAsLevel {
+			if l.Name == "level" && (o.SevAsLevel || o.ByName) {
 				if l.Value == "" {
 					return nil, inexpr("empty severity_text is absent")
 				}
@@ -842,7 +859,18 @@ func RenderOTLPLogs(streams []Stream, o Opt) ([]byte, error) {
 			}
 			lev := p % 3
 			p /= 3
+			if o.ByName {
+				switch {
+				case strings.HasPrefix(l.Name, "res_"):
+					lev = 0
+				case strings.HasPrefix(l.Name, "scp_"):
+					lev = 1
+				default:
+					lev = 2
+				}
+			}
 			lv[lev] = append(lv[lev], &otlpCommon.KeyValue{Key: l.Name, Value: otlpValue(l.Value, o.Typed)})
+			lvl[lev] = append(lvl[lev], l)
 		}
 		mkRes := func() *otlpResource.Resource {
 			if len(lv[0]) == 0 && o.OmitEmpty {
@@ -857,7 +885,7 @@ func RenderOTLPLogs(streams []Stream, o Opt) ([]byte, error) {
 			return &otlpCommon.InstrumentationScope{Name: "verif", Attributes: lv[1]}
 		}
 		var recs []*otlpLogs.LogRecord
-		for _, e := range s.Entries {
+		for i, e := range s.Entries {
 			if err := checkEntry(e); err != nil {
 				return nil, err
 			}
@@ -867,10 +895,36 @@ func RenderOTLPLogs(streams []Stream, o Opt) ([]byte, error) {
 			if !utf8.ValidString(e.Line) {
 				return nil, inexpr("invalid UTF-8 in a proto3 string")
 			}
-			recs = append(recs, &otlpLogs.LogRecord{TimeUnixNano: uint64(e.TsNs), SeverityText: sev, Attributes: lv[2],
-				Body: &otlpCommon.AnyValue{Value: &otlpCommon.AnyValue_StringValue{StringValue: e.Line}}})
+			rec := &otlpLogs.LogRecord{TimeUnixNano: uint64(e.TsNs), SeverityText: sev, Attributes: lv[2],
+				Body: &otlpCommon.AnyValue{Value: &otlpCommon.AnyValue_StringValue{StringValue: e.Line}}}
+			if o.OmitBody && e.Line == "" {
+				rec.Body = nil
+			}
+			if o.ByName { // fields the decoder does not read: they must not matter
+				rec.SeverityNumber = otlpLogs.SeverityNumber(1 + (i*4)%24)
+				rec.ObservedTimeUnixNano = uint64(e.TsNs) + 777
+				rec.TraceId = []byte("0123456789abcdef")
+				rec.SpanId = []byte("01234567")
+				rec.Flags = 1
+				rec.DroppedAttributesCount = 2
+			}
+			recs = append(recs, rec)
 		}
-		if o.OneRes {
+		switch {
+		case o.ByName && o.Pack:
+			rk, sk := "R"+labelsSeqKey(lvl[0]), "S"+labelsSeqKey(lvl[1])
+			if curRes == nil || rk != lastRes {
+				curRes = &otlpLogs.ResourceLogs{Resource: mkRes()}
+				ld.ResourceLogs = append(ld.ResourceLogs, curRes)
+				lastRes, curScope = rk, nil
+			}
+			if curScope == nil || sk != lastScope {
+				curScope = &otlpLogs.ScopeLogs{Scope: mkScope()}
+				curRes.ScopeLogs = append(curRes.ScopeLogs, curScope)
+				lastScope = sk
+			}
+			curScope.LogRecords = append(curScope.LogRecords, recs...)
+		case o.OneRes:
 			if len(lv[0]) > 0 {
 				return nil, inexpr("resource-level labels differ per stream")
 			}
@@ -885,12 +939,12 @@ func RenderOTLPLogs(streams []Stream, o Opt) ([]byte, error) {
 			} else {
 				shared.ScopeLogs = append(shared.ScopeLogs, &otlpLogs.ScopeLogs{Scope: mkScope(), LogRecords: recs})
 			}
-		} else if o.PerEntry {
+		case o.PerEntry:
 			for _, r := range recs {
 				ld.ResourceLogs = append(ld.ResourceLogs, &otlpLogs.ResourceLogs{Resource: mkRes(),
 					ScopeLogs: []*otlpLogs.ScopeLogs{{Scope: mkScope(), LogRecords: []*otlpLogs.LogRecord{r}}}})
 			}
-		} else {
+		default:
 			ld.ResourceLogs = append(ld.ResourceLogs, &otlpLogs.ResourceLogs{Resource: mkRes(),
 				ScopeLogs: []*otlpLogs.ScopeLogs{{Scope: mkScope(), LogRecords: recs}}})
 		}
